@@ -3,27 +3,27 @@
 import json, os, re, glob
 first = {}   # seed -> caught on the first pass (before any strengthening triggered by that round)
 r1_missed = {"C01-2","C03-2","C06-2","C08-1","C08-2","C10-2","C12-2","C16-2","C17-1","C17-2","C20-1"}
-for d in sorted(glob.glob('/verif/seeded/C??-?')):
+for d in sorted(glob.glob('/verif/seeded/C??-*'), key=lambda d: (os.path.basename(d).split('-')[0], int(os.path.basename(d).split('-')[1]))):
     s = os.path.basename(d)
     k = int(s.split('-')[1])
     if k <= 2:
         first[s] = s not in r1_missed
-for name in ('round2-first-pass.log', 'round3-first-pass.log'):
+for name in ('round2-first-pass.log', 'round3-first-pass.log', 'round4-first-pass.log', 'round5-first-pass.log'):
     p = '/verif/seeded/' + name
     if os.path.exists(p):
         for l in open(p):
-            m = re.match(r'(C\d\d-\d) (C\d\d) exit=(\d)', l)
+            m = re.match(r'(C\d\d-\d+) (C\d\d) exit=(\d)', l)
             if m:
                 first[m.group(1)] = m.group(3) == '1'
 final = {}
 p = '/verif/seeded/final-results.log'
 if os.path.exists(p):
     for l in open(p):
-        m = re.match(r'(C\d\d-\d) (C\d\d) exit=(\d)\s+\S*\s*(VIOLATION[^|]*)?\|?\s*(.*)', l)
+        m = re.match(r'(C\d\d-\d+) (C\d\d) exit=(\d)[^|]*\|?\s*(.*)', l)
         if m:
-            final.setdefault(m.group(1), []).append((m.group(2), m.group(3) == '1', (m.group(5) or '').strip()))
+            final.setdefault(m.group(1), []).append((m.group(2), m.group(3) == '1', (m.group(4) or '').strip()))
 rows = []
-for d in sorted(glob.glob('/verif/seeded/C??-?')):
+for d in sorted(glob.glob('/verif/seeded/C??-*'), key=lambda d: (os.path.basename(d).split('-')[0], int(os.path.basename(d).split('-')[1]))):
     s = os.path.basename(d)
     meta = json.load(open(d + '/meta.json'))
     notes = open(d + '/notes.md').read() if os.path.exists(d + '/notes.md') else ''
@@ -37,6 +37,8 @@ for d in sorted(glob.glob('/verif/seeded/C??-?')):
     f = first.get(s)
     fin = final.get(s, [])
     caught_by = ', '.join(p for p, ok, _ in fin if ok) or '—'
+    if meta.get('retired'):
+        caught_by = 'retired (does not apply to the repaired tree)'
     how = next((h for _, ok, h in fin if ok), '')
     rows.append((s, ', '.join(meta['files_touched']), title, 'yes' if f else ('no' if f is not None else '?'), caught_by, how[:110]))
 with open('/verif/seeded/RESULTS.md', 'w') as o:
@@ -45,8 +47,8 @@ with open('/verif/seeded/RESULTS.md', 'w') as o:
             'and was verified by `tools/seedimport.sh` (applies, builds, the 236 pinned tests still pass, its demonstration fails with and passes without the change). '
             '"first pass" = caught by the quick check of its property as the checks stood when the round was first run; '
             '"caught by" = quick checks (VERIF_SEED=1) that report a VIOLATION with the final harness (`tools/seedrun.sh`).\n\n')
-    n = len(rows); fp = sum(1 for r in rows if r[3] == 'yes'); fc = sum(1 for r in rows if r[4] != '—')
-    o.write(f'Totals: {n} changes; first pass {fp}/{n}; final harness {fc}/{n}.\n\n')
+    n = len(rows); fp = sum(1 for r in rows if r[3] == 'yes'); ret = sum(1 for r in rows if r[4].startswith('retired')); fc = sum(1 for r in rows if r[4] != '—' and not r[4].startswith('retired'))
+    o.write(f'Totals: {n} changes; first pass {fp}/{n}; retired {ret} (their mechanism was removed by a later fix, see meta.json); final harness {fc}/{n - ret} of the changes that apply to the final tree.\n\n')
     o.write('| seed | files | change | first pass | caught by | reported as |\n|---|---|---|---|---|---|\n')
     for r in rows:
         o.write('| ' + ' | '.join(x.replace('|', '\\|') for x in r) + ' |\n')
